@@ -304,8 +304,34 @@ func TestVerif_C15(t *testing.T) {
 			_, panicked, err := sim.Finalize(members, ts)
 			r.Eval()
 			if err == nil {
-				// the write succeeded: then nothing was wrong with the member after all; treat as success bookkeeping
+				// the write reported success: then ALL effects must be there, including those of the member
+				// that was expected to be unable to finalize (all or nothing)
 				r.Count("supposedly_failing_batches_that_succeeded_"+why, 1)
+				wsnap, _ := sim.Store.ReadSnapshotsSinceTopology(sim.Topo, 1)
+				for _, mtx := range members {
+					h := mtx.PayloadHash()
+					body, fin, rerr := sim.Store.ReadTransaction(h)
+					if rerr != nil || body == nil || fin == "" || (len(wsnap) == 1 && fin != wsnap[0].Hash.String()) {
+						r.Violation("C15|partial-success|finalization-record-missing|"+why, "a snapshot write returned success but a member has no finalization record naming it", map[string]any{"why": why, "position": pos})
+						continue
+					}
+					for i, o := range mtx.Outputs {
+						if o.Type == common.OutputTypeWithdrawalSubmit {
+							continue
+						}
+						u, uerr := sim.Store.ReadUTXOLock(h, uint(i))
+						if uerr != nil || u == nil {
+							r.Violation("C15|partial-success|output-missing|"+why, "a snapshot write returned success but a materialized output of a member is missing (effects applied partially)",
+								map[string]any{"why": why, "position": pos, "batch": len(members), "output": i})
+						}
+					}
+					for _, k := range mtx.Outputs[0].Keys {
+						owner, _ := sim.Store.ReadGhostKeyLock(*k)
+						if owner == nil || *owner != h {
+							r.Violation("C15|partial-success|output-key-not-bound|"+why, "a snapshot write returned success but an output key of a member is bound to another transaction", map[string]any{"why": why})
+						}
+					}
+				}
 				for _, b := range batch {
 					if !verifSDLone(b.Kind) {
 						d.applied(b)
